@@ -77,6 +77,14 @@ Definition run_gadget (op : string) (a : list Z) : list Z :=
       let '(w, v) := hint_of has ws y (decode_den (fq s')) in
       let '(sat, gx, gy) := @new_witness_g FqF ark_A ark_D ark_ZETA fq_neg (fq px) (fq py) (fq s') w v in gb sat :: val gx :: val gy :: nil
     | _ => (-1) :: nil end
+  else if String.eqb op "r1.new_affine" then
+    (* AllocVar<AffinePoint> in witness mode = AllocVar<Element> of the same coordinates: the encoding hint is the NATIVE encoding of the
+       offered coordinates (whatever they are), then the in-circuit decode, curve check and decaf equality of r1.new *)
+    match a with px :: py :: has :: ws :: y :: nil =>
+      let s' := snd (w_encode_honest (fq px) (fq py)) in
+      let '(w, v) := hint_of has ws y (decode_den s') in
+      let '(sat, gx, gy) := @new_witness_g FqF ark_A ark_D ark_ZETA fq_neg (fq px) (fq py) s' w v in gb sat :: val gx :: val gy :: nil
+    | _ => (-1) :: nil end
   else if String.eqb op "r1.is_eq" then
     match a with x1 :: y1 :: x2 :: y2 :: nil => gb (@is_eq_g FqF (fq x1) (fq y1) (fq x2) (fq y2)) :: nil | _ => (-1) :: nil end
   else (-9) :: nil.
